@@ -167,9 +167,7 @@ func c22Run(t *testing.T, cj []byte, res *vfResult) {
 			return
 		}
 		s := simrt.NewSched(c.SchedSeed, c.Strat,
-			"peerconnection.go:updateConnectionState", "peerconnection.go:onConnectionStateChange",
-			"peerconnection.go:onICEConnectionStateChange", "peerconnection.go:ICEConnectionState",
-			"peerconnection.go:createICETransport", "dtlstransport.go:State", "peerconnection.go:close", "harness:")
+			"peerconnection.go", "dtlstransport.go:State", "harness:")
 		last := pc.connectionState.Load().(PeerConnectionState).String()
 		s.OnStep = func() {
 			cur, _ := pc.connectionState.Load().(PeerConnectionState)
@@ -214,7 +212,7 @@ func c22Run(t *testing.T, cj []byte, res *vfResult) {
 		s.OnStep()
 		trace = append(trace, s.Trace...)
 		preempts = s.Preempts
-		s.Stop()
+		s.StopIf(outcome == "done")
 		vfSettle(10 * time.Millisecond)
 		fs, _ := pc.connectionState.Load().(PeerConnectionState)
 		final = fs.String()
